@@ -11,6 +11,14 @@ CHECKS = {
   text="Randomised search (rapid) over pairs (A, A+edit script): the mirror relation between diff(A,B) and diff(B,A) on multisets of (location, change class, direction). Five listed known findings (description change mislabelled; pinned by a golden) are excluded by signature and replayed from the corpus.",
   note="Mirror table and location reduction are stated in the evidence assumptions; pairs on which diff crashes belong to C12.",
   tech="property-based testing (rapid): metamorphic (argument-swap) relation over generated spec pairs"),
+ "C13": dict(
+  text="Randomised search (rapid) over (base spec, one elementary narrowing edit from a 35-kind catalogue at every parameter / items / body-schema / response position, witness request). A request edit only counts when a concrete witness request is accepted before and rejected after by two independent validators (self-written Swagger 2.0 binder + go-openapi/validate); oracle: diff reports >=1 Breaking difference and the command returns an error. Eight root-cause classes of misses are listed known findings.",
+  note="The edit catalogue is finite; a breaking edit outside it is not searched. Witness certification trusts go-openapi/validate's parameter and schema validators and go-openapi/analysis for routing/consumes.",
+  tech="property-based testing (rapid): metamorphic edit + double-oracle witness certification"),
+ "C15": dict(
+  text="Randomised search (rapid) over spec pairs x subsets of the reported differences fed back verbatim as ignore file; exit status <=> non-ignored Breaking entry for txt, -b and json; text/JSON/-b reports compared as multisets; JSON round trip of every difference and exhaustively of every change code.",
+  note="DiffCommand.Execute is driven in-process (returned error = non-zero exit). Known finding: -f json always exits 0 (pinned by TestDiffProcessIgnores).",
+  tech="property-based testing (rapid): round-trip (report -> ignore file -> report) and differential comparison of output formats"),
 }
 REF = {k: f"DESIGN.md §2 {k}" for k in CHECKS}
 PENDING = "check under construction in this session (not yet registered); DESIGN.md describes the planned generated-input check"
